@@ -6,6 +6,7 @@ package main
 import (
 	"errors"
 	"fmt"
+	"io"
 	"net/http"
 	"net/http/httptest"
 	"os"
@@ -45,9 +46,10 @@ func server() string {
 }
 
 type exec struct {
-	dir  string
-	reg  *updater.ResourceRegistry
-	dead bool // a call panicked: locks may still be held, nothing more is run on this registry
+	dir   string
+	reg   *updater.ResourceRegistry
+	files map[string]*updater.File // the File handed out last for every identifier
+	dead  bool                     // a call panicked: locks may still be held, nothing more is run on this registry
 }
 
 func newExec(*hxlib.Run) hxlib.Exec {
@@ -64,7 +66,7 @@ func newExec(*hxlib.Run) hxlib.Exec {
 	if err := reg.Initialize(utils.NewDirStructure(dir, 0o755)); err != nil {
 		panic(err)
 	}
-	return &exec{dir: dir, reg: reg}
+	return &exec{dir: dir, reg: reg, files: map[string]*updater.File{}}
 }
 
 func (e *exec) Close() error { return os.RemoveAll(e.dir) }
@@ -170,6 +172,18 @@ func b01(s string) (bool, bool) {
 		return true, true
 	}
 	return false, false
+}
+
+func blErr(err error) string {
+	switch {
+	case err == nil:
+		return "ok"
+	case strings.Contains(err.Error(), "last version"):
+		return "err last"
+	case strings.Contains(err.Error(), "could not find"):
+		return "err noversion"
+	}
+	return "err other:" + err.Error()
 }
 
 func parseIdx(s string) (*updater.Index, bool) {
@@ -329,22 +343,62 @@ func (e *exec) Do(line string) string {
 		if err != nil {
 			return "err other:" + err.Error()
 		}
+		e.files[tok(f[1])] = file
 		return "file " + file.Version() + " " + filepath.ToSlash(rel)
+	case f[0] == "fblacklist" && len(f) == 2:
+		// File.Blacklist on the file handed out last for the identifier
+		file := e.files[tok(f[1])]
+		if file == nil {
+			return "err nofile"
+		}
+		return blErr(file.Blacklist())
+	case f[0] == "unpack" && len(f) == 2:
+		// File.Unpack of the file handed out last, with its extension as suffix: the unpacked copy Purge removes later
+		file := e.files[tok(f[1])]
+		if file == nil {
+			return "err nofile"
+		}
+		ext := filepath.Ext(file.Path())
+		if ext == "" {
+			return "err noext"
+		}
+		p, err := file.Unpack(ext, func(r io.Reader) (io.Reader, error) { return r, nil })
+		if err != nil {
+			return "err other:" + err.Error()
+		}
+		rel, err := filepath.Rel(e.dir, p)
+		if err != nil {
+			return "err other:" + err.Error()
+		}
+		return "unpacked " + filepath.ToSlash(rel)
+	case f[0] == "anyavail" && len(f) == 2:
+		res := e.reg.VerifResource(tok(f[1]))
+		if res == nil {
+			return "err notfound"
+		}
+		return fmt.Sprintf("avail %v", res.AnyVersionAvailable())
+	case f[0] == "rm" && len(f) == 4:
+		// the environment deletes a file of a version behind the updater's back (implementation-only cases)
+		id, ver := tok(f[1]), tok(f[2])
+		sv, err := semver.NewVersion(ver)
+		if err != nil || e.reg.VerifResource(id) == nil {
+			return "err notfound"
+		}
+		ps := filesOf(id, sv.String())
+		k, err := strconv.Atoi(f[3])
+		if err != nil || k < 0 || k >= len(ps) {
+			return "err notfound"
+		}
+		if os.Remove(filepath.Join(e.dir, filepath.FromSlash(ps[k]))) != nil {
+			return "err notfound"
+		}
+		return "ok"
 	case f[0] == "blacklist" && len(f) == 3:
 		res := e.reg.VerifResource(tok(f[1]))
 		if res == nil {
 			return "err notfound"
 		}
-		err := res.Blacklist(tok(f[2]))
-		switch {
-		case err == nil:
-			return "ok"
-		case strings.Contains(err.Error(), "last version"):
-			return "err last"
-		case strings.Contains(err.Error(), "could not find"):
-			return "err noversion"
-		}
-		return "err other:" + err.Error()
+		return blErr(res.Blacklist(tok(f[2])))
 	case f[0] == "purge" && len(f) == 2:
 		k, err := strconv.Atoi(f[1])
 		if err != nil {
@@ -839,12 +893,25 @@ func checkOp(c hxlib.Case, outs []string, k, at int, before, after *mState, fl r
 		} else {
 			count("getfile:" + strings.ReplaceAll(o, " ", "-"))
 		}
-	case "blacklist":
+	case "blacklist", "fblacklist":
 		id := tok(f[1])
 		r, br := after.res[id], before.res[id]
-		count("blacklist:" + strings.ReplaceAll(o, " ", "-"))
+		count(f[0] + ":" + strings.ReplaceAll(o, " ", "-"))
 		if r == nil || br == nil {
 			break
+		}
+		if f[0] == "fblacklist" {
+			// File.Blacklist: the version of the file handed out last, i.e. the active version
+			f = []string{f[0], f[1], br.act}
+			if o == "ok" {
+				hit := false
+				for _, v := range r.vs {
+					hit = hit || (v.num == br.act && v.bl)
+				}
+				if !hit {
+					add("C19:file-blacklist-version", fmt.Sprintf("File.Blacklist on %s (file of version %s handed out) = ok but that version is not blacklisted: %v", id, br.act, verList(r)))
+				}
+			}
 		}
 		nb := func(x *mRes) (n int) {
 			for _, v := range x.vs {
@@ -961,6 +1028,29 @@ func checkOp(c hxlib.Case, outs []string, k, at int, before, after *mState, fl r
 		}
 		if o != w {
 			add("C19:GetSelectedVersions", fmt.Sprintf("GetSelectedVersions() = %q but the resources say %q", o, w))
+		}
+	case "unpack":
+		// the unpacked copy belongs to the files of the version (Purge removes it with the version): right name, on disk
+		// (Unpack does not change the active version: the dump right after the call names the version of the file)
+		if br := after.res[tok(f[1])]; br != nil && strings.HasPrefix(o, "unpacked ") {
+			count("unpack:done")
+			fs := filesOf(tok(f[1]), br.act)
+			if p := strings.TrimPrefix(o, "unpacked "); len(fs) < 3 || p != fs[2] {
+				add("C19:unpack-path", fmt.Sprintf("File.Unpack of %s version %s = %s, which is not the unpacked copy of that version %v", tok(f[1]), br.act, p, fs))
+			} else if !after.disk[p] {
+				add("C19:unpack-missing-file", fmt.Sprintf("File.Unpack of %s version %s = %s, which is not on disk", tok(f[1]), br.act, p))
+			}
+		}
+	case "anyavail":
+		// another view of "the resource lists as available": it must agree with the listing
+		if r := after.res[tok(f[1])]; r != nil {
+			any := false
+			for _, v := range r.vs {
+				any = any || v.avail
+			}
+			if o != fmt.Sprintf("avail %v", any) {
+				add("C19:AnyVersionAvailable", fmt.Sprintf("AnyVersionAvailable(%s) = %q but the resource lists %v", tok(f[1]), o, verList(r)))
+			}
 		}
 	case "getversion":
 		if r := after.res[tok(f[1])]; r != nil && o != "version "+strings.TrimSuffix(r.sel, "!ghost") {
